@@ -77,8 +77,7 @@ def coq_makefile():
 
 def make(targets, timeout=1500):
     """Full .vo build of the given targets (no -vos).  Returns (ok, log)."""
-    coq_makefile()
-    cmd = ["timeout", str(timeout), "make", "-j", str(NPROC), "-k"] + list(targets)
+    cmd = ["timeout", str(timeout), "make", "-j", os.environ.get("VERIF_MAKE_J", "8"), "-k"] + list(targets)
     p = subprocess.run(cmd, cwd=COQ, stdout=subprocess.PIPE, stderr=subprocess.STDOUT, text=True)
     return p.returncode == 0, p.stdout
 
@@ -186,10 +185,17 @@ def print_assumptions(prop_id, module, names):
 
 
 def load_known_findings():
+    """known_findings.json plus findings/<id>.json (committed; never written at run time)."""
+    out = []
     p = os.path.join(VERIF, "known_findings.json")
-    if not os.path.exists(p):
-        return []
-    return json.load(open(p))
+    if os.path.exists(p):
+        out.extend(json.load(open(p)))
+    d = os.path.join(VERIF, "findings")
+    if os.path.isdir(d):
+        for f in sorted(os.listdir(d)):
+            if f.endswith(".json"):
+                out.extend(json.load(open(os.path.join(d, f))))
+    return out
 
 
 def case_hash(obj) -> str:
